@@ -193,6 +193,22 @@ class TrackedArray(np.ndarray):
         self._dirty_hash = True
         if isinstance(obj, type(self)):
             obj._dirty_hash = True
+            if np.may_share_memory(self, obj):
+                # this array is a view of `obj`: whatever marks
+                # it as modified has to mark `obj` as well
+                self._parent = obj
+
+    @property
+    def _dirty_hash(self):
+        return self.__dict__.get("_dirty", True)
+
+    @_dirty_hash.setter
+    def _dirty_hash(self, value):
+        self.__dict__["_dirty"] = value
+        if value:
+            parent = self.__dict__.get("_parent", None)
+            if parent is not None:
+                parent._dirty_hash = True
 
     def __array_wrap__(self, out_arr, context=None, *args, **kwargs):
         """
